@@ -118,7 +118,9 @@ CLAIMED.update({
             TB + "Since the deepening pass: span-fill loop = naive accumulation (spanfill_eq_naive), induction over all sample rows "
             "(rasterizeEdges_rows / _walked), rasterize_trapezoid / add_trapezoids / add_traps = Spec.addShape on the exact region "
             "(no lost fraction at the first row; per row no lattice tie or left-leaning or integral slope), triangle = its two "
-            "trapezoids for every vertex order (triangle_tiles; non-degenerate, no int32 wrap). Partial: outside that exact region "
+            "trapezoids for every vertex order (triangle_tiles; non-degenerate, no int32 wrap); the a1 word-mask, a4 nibble and a8 "
+            "byte/span-fill row bodies are modelled literally on little-endian byte memory (a1 stores regenerated) and proved equal "
+            "to the per-pixel rows (rasterizeEdgesW_holds, rowWords_eq_realize). Partial: outside that exact region "
             "the code itself deviates (known findings). Known findings (recorded, not repaired: they change rendered output pinned by the suite's "
             "CRCs): pixman_edge_step drops the error term when no carry occurs (walk-history dependence, <= 1/65536 px), int32 "
             "overflow for |dx| >= 32768 px, get_trap_extents box in trapezoid space / from line endpoints, INT_MIN/-1 trap.",
